@@ -490,3 +490,54 @@ Print Assumptions C20_dsl_lowering_correct.
 Example C20_dsl_example :
   pat_mv [49; 45; 48] = (5, 4) /\ pat_matches [49; 45; 48] 6 = true /\ pat_matches [49; 45; 48] 7 = false.
 Proof. vm_compute. repeat split. Qed.
+
+(* ------------------------------------------------------------------------------------------------------------
+   Definitions regenerated from the source text on every run (translator/unit_format.py -> Gen/FormatGen.v),
+   proved equal to the model in Proofs/GenEqFormat.v. *)
+From V.Proofs Require Import GenEqFormat.
+From V.Gen Require FormatGen.
+
+(* sim/_pyeval.py value_to_string = bytes least significant first, NULs dropped, strict UTF-8 — for every value >= 0
+   (for a negative value Python's loop does not terminate; 's' is only accepted on unsigned shapes) *)
+Theorem C20_translated_value_to_string v :
+  0 <= v -> FormatGen.value_to_string v = utf8_decode (value_bytes v).
+Proof. exact (gen_value_to_string_eq v). Qed.
+Print Assumptions C20_translated_value_to_string.
+
+(* hdl/_ast.py Format._parse_format_spec, the statements after the regex: for every combination of group values the
+   character classes of the pattern admit (any fill, any width text, any shape) they are the model's rejections
+   ('^', ',', 'n', check_shape) and produce the model's dict *)
+Theorem C20_translated_parse_format_spec_checks fill al sg alt zero wd grp ty sh :
+  in_opt al [60; 62; 61; 94] -> in_opt sg [45; 43; 32] -> in_opt grp [95; 44] ->
+  in_opt ty [98; 111; 100; 120; 88; 99; 115; 110] ->
+  FormatGen.parse_format_spec_checks (groups_of fill al sg alt zero wd grp ty) sh =
+  option_map dict_of
+    (match raw_of fill al sg alt zero wd grp ty with
+     | Some sp => if check_shape sp sh then Some sp else None
+     | None => None end).
+Proof. exact (gen_checks_eq fill al sg alt zero wd grp ty sh). Qed.
+Print Assumptions C20_translated_parse_format_spec_checks.
+
+(* the dict record is the list of integers of spec_dict that the correspondence run compares *)
+Theorem C20_translated_dict_ints sp : dict_ints (dict_of sp) = spec_dict sp.
+Proof. exact (dict_ints_of sp). Qed.
+Print Assumptions C20_translated_dict_ints.
+
+(* regex (Format._FORMAT_SPEC_PATTERN, regenerated from its parse tree) + checks = parse_spec + dict, on the finite
+   domain: every string of length <= 3 over `alphabet` (30 characters: all those the pattern names, newline, others)
+   and 14 longer specifications, for the shapes unsigned/signed x width 8/7.  The equality for all strings of all
+   lengths is NOT proved. *)
+Theorem C20_translated_parse_format_spec_bounded_partial :
+  forallb (fun sh => forallb (fun s =>
+      odict_beq (FormatGen.parse_format_spec s sh) (option_map dict_of (parse_spec s sh)))
+    (words_upto3 ++ long_specs)) shapes4 = true.
+Proof. exact gen_parse_format_spec_bounded. Qed.
+Print Assumptions C20_translated_parse_format_spec_bounded_partial.
+
+Example C20_translated_example :
+  option_map dict_ints (FormatGen.parse_format_spec [42;62;43;35;48;49;50;95;120] (Sh 16 true)) =
+    Some [42; 62; 43; 1; 12; 95; 120] /\
+  option_map dict_ints (FormatGen.parse_format_spec [48;53;100] (Sh 8 false)) = Some [48; 61; -1; 0; 5; -1; 100] /\
+  FormatGen.parse_format_spec [60;94] (Sh 8 false) = None /\
+  FormatGen.value_to_string 6513249 = Some [97; 98; 99] /\ FormatGen.value_to_string 255 = None.
+Proof. exact gen_parse_format_spec_example. Qed.
